@@ -53,46 +53,53 @@ def estimate_minor(
         mutations |= set(major_sol.added)
     mutations |= gene.random_mutations
 
-    # Filter out low quality mutations
-    def default_filter_fn(cov, mut):
-        # TODO: is this necessary?
-        r = gene.region_at(mut.pos)
-        # "-" marks the bases of a deletion: they are part of the depth of a locus
-        if mut.op not in ["_", "-"] and not (
-            mut in mutations
-            or (r and r[1][0] == "e")
-            or (r and r[1] in ["utr3", "utr5", "up"])
-        ):
-            return False
-        cond = cov.basic_filter(mut, cn=coverage.profile.cn_max)
-        if mut.op != "_":
-            cond = cond and cov.basic_filter(
-                mut, cn=major_sol.cn_solution.position_cn(mut.pos) + 0.5
-            )
-        return cond
+    # Filter out low quality mutations.
+    # The copy-number dependent threshold uses the gene structure of the candidate
+    # that is being refined (one filtered coverage per copy-number solution).
+    def default_filter_fn(cn_solution):
+        def filter_fn(cov, mut):
+            # TODO: is this necessary?
+            r = gene.region_at(mut.pos)
+            # "-" marks the bases of a deletion: they are part of the depth of a locus
+            if mut.op not in ["_", "-"] and not (
+                mut in mutations
+                or (r and r[1][0] == "e")
+                or (r and r[1] in ["utr3", "utr5", "up"])
+            ):
+                return False
+            cond = cov.basic_filter(mut, cn=coverage.profile.cn_max)
+            if mut.op != "_":
+                cond = cond and cov.basic_filter(
+                    mut, cn=cn_solution.position_cn(mut.pos) + 0.5
+                )
+            return cond
 
-    cov = coverage.filtered(Coverage.quality_filter)
-    cov = cov.filtered(default_filter_fn)
+        return filter_fn
+
+    cn_sols = {m.cn_solution for m in major_sols}
+    quality_cov = coverage.filtered(Coverage.quality_filter)
+    covs = {c: quality_cov.filtered(default_filter_fn(c)) for c in cn_sols}
 
     if novel:
-        for pos, c in cov._coverage.items():
-            for m in c:
-                if m != "_" and Mutation(pos, m) not in mutations:
-                    r = gene.region_at(pos)
-                    log.info(
-                        "[minor] novel {} ({}; coverage= {:.0f}; func= {})",
-                        r[1] if r else "-",
-                        cov.percentage(Mutation(pos, m)),
-                        gene.is_functional((pos, m)),
-                    )
-                    mutations.add(Mutation(pos, m))
+        for cov in list(covs.values()):
+            for pos, c in cov._coverage.items():
+                for m in c:
+                    if m != "_" and Mutation(pos, m) not in mutations:
+                        r = gene.region_at(pos)
+                        log.info(
+                            "[minor] novel {} ({}; coverage= {:.0f}; func= {})",
+                            r[1] if r else "-",
+                            cov.percentage(Mutation(pos, m)),
+                            gene.is_functional((pos, m)),
+                        )
+                        mutations.add(Mutation(pos, m))
 
     # Group by CN solutions
     minor_sols: List[MinorSolution] = []
-    cn_sols = {m.cn_solution for m in major_sols}
     min_score = min(m.score for m in major_sols)
     for c in sorted(cn_sols, key=lambda x: x._solution_nice()):
         log.debug("*" * 80)
+        cov = covs[c]
         majors = [m for m in major_sols if m.cn_solution == c]
         _print_candidates(gene, alleles, c, cov, mutations)
         for major_sol in natsorted(majors, key=lambda s: str(s.solution)):
